@@ -145,6 +145,39 @@ func child(goroutines, rounds int) {
 		}
 		wg.Wait()
 		ops += goroutines * rounds
+		// hot phase: the goroutines call Wrap and Unwrap on the shared values back to back, released together, so that
+		// many of them are inside the recipient / identity code at the same instant
+		const hot = 20
+		start := make(chan struct{})
+		var wg2 sync.WaitGroup
+		fk := lab.Plain(16, 9)
+		for g := 0; g < goroutines; g++ {
+			wg2.Add(1)
+			go func(g int) {
+				defer wg2.Done()
+				defer func() {
+					if r := recover(); r != nil {
+						errs[g] = fmt.Sprintf("panic: %v", r)
+					}
+				}()
+				<-start
+				for r := 0; r < hot; r++ {
+					st, err := sh.rcpt.Wrap(fk)
+					if err != nil {
+						errs[g] = "wrap: " + err.Error()
+						return
+					}
+					k, err := sh.id.Unwrap(st)
+					if err != nil || !bytes.Equal(k, fk) {
+						errs[g] = fmt.Sprintf("unwrap of own stanza: %v", err)
+						return
+					}
+				}
+			}(g)
+		}
+		close(start)
+		wg2.Wait()
+		ops += goroutines * hot
 		for g, e := range errs {
 			if e != "" {
 				fmt.Printf("RESULT-MISMATCH %s goroutine %d: %s\n", sh.name, g, e)
@@ -167,7 +200,7 @@ func main() {
 		if c.Thorough() {
 			configs = append(configs, [2]int{3, 20}, [2]int{8, 20}, [2]int{32, 8}, [2]int{64, 4})
 		}
-		c.Bound("free-running goroutines (fork-join, no synchronisation between operations) sharing one recipient and one identity value per key type {x25519, scrypt, ssh-ed25519, ssh-rsa, ssh-rsa with a key assembled from its components, passphrase recipients at the default work factor and at 20}: %v (goroutines, rounds) of Encrypt+Decrypt round trips and Decrypt of pre-made files of 4 sizes and of a file with trailing data (must fail), built with -race", configs)
+		c.Bound("free-running goroutines (fork-join, no synchronisation between operations) sharing one recipient and one identity value per key type {x25519, scrypt, ssh-ed25519, ssh-rsa, ssh-rsa with a key assembled from its components, passphrase recipients at the default work factor and at 20}: %v (goroutines, rounds) of Encrypt+Decrypt round trips and Decrypt of pre-made files of 4 sizes and of a file with trailing data (must fail), followed by a hot phase of 20 back-to-back Wrap+Unwrap calls per goroutine released together; built with -race", configs)
 		for ci, cfg := range configs {
 			if !c.MineKey(ci) {
 				continue
